@@ -65,7 +65,7 @@ namespace Dmn.Lexer
 
 /-- `lexer_no_panic`: no call of `next_token` panics, for any input, cursor, scope and flag
 setting: every `consumed_positions[i]` of `consume_name` is in bounds (the vector is as long as
-`parts`; the `till_in` tweak fires only for an index `> 0`, lexer.rs:649 — repaired by 6e5a011,
+`parts`; the `till_in` tweak fires only for an index `> 0`, lexer.rs:655 — repaired by 6e5a011,
 finding F5c; the prefix loop stays within `1..parts.len()`), and nothing else indexes or
 subtracts. -/
 theorem lexer_no_panic (l : Lx) (s : PanicSite) : nextToken l ≠ .panic s := by
